@@ -32,8 +32,14 @@ try:
     wrap = re.findall(r"-Wl,--wrap=[\w,=\-]+", head)
     flags += wrap
     def build_run(tag):
-        if os.path.exists(demosh) and not os.path.exists(demo):
-            return sh("WT=%s sh %s %s" % (wt, demosh, wt), cwd=seed, timeout=900)
+        if os.path.exists(demosh):
+            # the agent's script refers to its own worktree: point it at ours
+            import re as _re
+            tmpd = "/tmp/seeddemo_%s_%s_dir" % (name, tag); shutil.rmtree(tmpd, ignore_errors=True); shutil.copytree(seed, tmpd)
+            txt = _re.sub(r"/tmp/wt_C\d\d(?!_)", wt, open(os.path.join(tmpd, "demo.sh")).read())
+            txt = _re.sub(r"/tmp/wt_C\d\d_scratch", tmpd, txt)
+            open(os.path.join(tmpd, "demo.sh"), "w").write(txt)
+            r = sh("sh demo.sh", cwd=tmpd, timeout=900); shutil.rmtree(tmpd, ignore_errors=True); return r
         exe = "/tmp/seeddemo_%s_%s" % (name, tag)
         srcs = "%s %s/lib/params/params.cpp %s/lib/prng/fastrandombytes.cpp %s/lib/prng/randombytes.cpp %s/lib/prng/nfl_crypto_stream_salsa20_amd64_xmm6.s" % (demo, wt, wt, wt, wt)
         if "own randombytes" in head or "NO_PRNG_LINK" in head:
